@@ -467,12 +467,14 @@ class ConditionLike:
             elif isinstance(spec_val, (list, tuple)):
                 # Check items for DataPath specs (in a copy; the spec belongs to the
                 # caller):
+                spec_val_type = type(spec_val)
                 spec_val = list(spec_val)
                 for idx, v in enumerate(spec_val):
                     try:
                         spec_val[idx] = valida.datapath.DataPath.from_spec(v)
                     except MalformedDataPathSpec:
                         pass
+                spec_val = spec_val_type(spec_val)
 
             # invoke the condition method to construct the Condition object:
 
